@@ -13,17 +13,15 @@ namespace OdxVerif.Codec
 open OdxVerif.Bits OdxVerif.OdxM
 
 /-- one step of the key bookkeeping on the decoding side -/
-theorem KItem.refs_step (W : String → Option Int) (it : KItem) (its : List KItem) (hok : it.ok) (seen known : List String)
+theorem KItem.refs_step (W : String → Option Int) (it : KItem) (its : List KItem) (hok : it.ok W) (seen known : List String)
     (h : KItems.refsOk W seen known (it :: its)) (d : DecState) (hcb : d.cursorBit = 0) (hfit : it.toComp.pair.fits d)
     (hpre : it.toComp.decPre d) (hseen : ∀ n ∈ seen, lookup n d.lengthKeys = W n) :
     ∃ seen' known', KItems.refsOk W seen' known' its ∧ (∀ n ∈ seen', lookup n (it.toComp.pair.dec d).2.lengthKeys = W n) := by
   cases it with
-  | comp g =>
+  | comp g nm =>
     refine ⟨seen, known, h, ?_⟩
     intro n hn
-    have : (g.pair.dec d).2.lengthKeys = d.lengthKeys := hok.2.2.dec_keys d hcb hfit hpre
-    show lookup n (g.pair.dec d).2.lengthKeys = W n
-    rw [this]; exact hseen n hn
+    exact Comp.KOk.dec_keys hok d hcb hfit hpre n (hseen n hn)
   | key o v b =>
     refine ⟨o.name :: seen, _, h.2, ?_⟩
     intro n hn
@@ -42,7 +40,7 @@ theorem KItem.ref_known (W : String → Option Int) (it : KItem) (its : List KIt
     (h : KItems.refsOk W seen known (it :: its)) (d : DecState) (hseen : ∀ n ∈ seen, lookup n d.lengthKeys = W n)
     (k : String) (b : Int) (hr : it.ref = some (k, b)) : lookup k d.lengthKeys = some b := by
   cases it with
-  | comp g => cases hr
+  | comp g nm => cases hr
   | key o v b' => cases hr
   | user u =>
     simp only [KItem.ref, Option.some.injEq, Prod.mk.injEq] at hr
@@ -52,7 +50,7 @@ theorem KItem.ref_known (W : String → Option Int) (it : KItem) (its : List KIt
     rw [← hr.1, ← hr.2, hseen _ h.1, h.2.1]
 
 /-- **the decoder preconditions from the two passes** -/
-theorem KItems.decPre_intro (W : String → Option Int) : (its : List KItem) → (∀ it ∈ its, it.ok) →
+theorem KItems.decPre_intro (W : String → Option Int) : (its : List KItem) → (∀ it ∈ its, it.ok W) →
     Comps.eopLast (KItems.comps its) → ∀ (K : EncState → EncState), Framing K → ∀ (seen known : List String),
     KItems.refsOk W seen known its → ∀ (s : EncState) (d : DecState), AllBytes s.msg →
     (K ((Comps.pair (KItems.comps its)).enc s)).warn = s.warn → d.origin = s.origin → d.cursorByte = s.cursorByte →
@@ -65,7 +63,7 @@ theorem KItems.decPre_intro (W : String → Option Int) : (its : List KItem) →
   | [], _, _, _, _, _, _, _, _, _, _, _, _, _, _, _, _, _, _, _, _ => trivial
   | it :: its, hok, hlast, K, hK, seen, known, hrefs, s, d, hall, hw, horig, hcur, hcb, hdall, hlen, hagree, hcells, hseen, heop => by
     have hokit := hok it (List.mem_cons_self ..)
-    have hokr : ∀ x ∈ its, x.ok := fun x hx => hok x (List.mem_cons_of_mem _ hx)
+    have hokr : ∀ x ∈ its, x.ok W := fun x hx => hok x (List.mem_cons_of_mem _ hx)
     have hgood := it.good hokit
     have hgoodr := KItems.good its hokr
     rw [KItems.comps_cons] at hlast
@@ -96,23 +94,21 @@ theorem KItems.decPre_intro (W : String → Option Int) : (its : List KItem) →
     have hhead : it.toComp.decPre d := by
       -- the head
       cases it with
-      | comp g =>
-        obtain ⟨hgok, hgend, _⟩ := hokit
+      | comp g nm =>
+        have hgok : g.KOk W nm := hokit
         show g.decPre d
-        cases he : g.eopOnly with
-        | false => exact hgend.trivial he d
-        | true =>
-          cases hc : KItems.comps its with
-          | nil =>
-            apply hgend.of_end d
-            have := heop' (by simp [Comps.anyEop, KItem.toComp, he])
-            rw [hc] at this
-            exact this
-          | cons g2 rest2 =>
-            rw [hc] at hlast
-            have := hlast.1
-            simp only [KItem.toComp] at this
-            rw [this] at he; cases he
+        refine hgok.pre_intro _ hK' s d hall hw' horig hcur hcb hdall hlen' hagree' ?_
+        intro he
+        cases hc : KItems.comps its with
+        | nil =>
+          have := heop' (by simp [Comps.anyEop, KItem.toComp, he])
+          rw [hc] at this
+          exact this
+        | cons g2 rest2 =>
+          rw [hc] at hlast
+          have := hlast.1
+          simp only [KItem.toComp] at this
+          rw [this] at he; cases he
       | key o v b =>
         show (decStep o d).1 = .int v
         have := (hcells (o, v, o.pos s.origin s.cursorByte) (by simp [KItems.cells, KItem.cell])).2
@@ -153,8 +149,8 @@ theorem KItems.need_ge (its : List KItem) : its.length + 1 ≤ Comps.need (KItem
 
 /-- `Request.encode` on a list of items = the two pure passes from the empty message -/
 theorem encodeMessage_kitems (W : String → Option Int) (its : List KItem) (hneed : Comps.need (KItems.comps its) + 2 ≤ modelFuel)
-    (hok : ∀ it ∈ its, it.ok) (hlast : Comps.eopLast (KItems.comps its)) (hn : Comps.namesOk (KItems.comps its))
-    (hrefs : KItems.refsOk W [] [] its) (hcov : KItems.covered its) (trig : Option Bytes) :
+    (hok : ∀ it ∈ its, it.ok W) (hlast : Comps.eopLast (KItems.comps its)) (hn : Comps.namesOk (KItems.comps its))
+    (hap : KItems.apart its) (hrefs : KItems.refsOk W [] [] its) (hcov : KItems.covered its) (trig : Option Bytes) :
     ∃ s0 : EncState, s0.msg = [] ∧ s0.used = [] ∧ s0.warn = 0 ∧ s0.cursorByte = 0 ∧ s0.origin = 0 ∧
       encodeMessage none (Comps.toParams (KItems.comps its)) (.dict (Comps.values (KItems.comps its))) trig true =
         .ok ((enc2 (KItems.cells its s0) ((Comps.pair (KItems.comps its)).enc s0)).msg,
@@ -163,7 +159,7 @@ theorem encodeMessage_kitems (W : String → Option Int) (its : List KItem) (hne
   refine ⟨s0, rfl, rfl, rfl, rfl, rfl, ?_⟩
   obtain ⟨f, hf⟩ : ∃ f, modelFuel = f + 1 + 1 := ⟨modelFuel - 2, by unfold modelFuel; omega⟩
   have hf' : Comps.need (KItems.comps its) ≤ f := by omega
-  obtain ⟨s1, hrun1, hp1⟩ := KItems.encode1 W its hok hlast hn [] [] hrefs (Comps.values (KItems.comps its))
+  obtain ⟨s1, hrun1, hp1⟩ := KItems.encode1 W its hok hlast hap [] [] hrefs (Comps.values (KItems.comps its))
     (fun g hg => KItems.lookupV_values its hok hn g hg) f hf' true (fun _ => rfl) s0 (fun n x h => by cases h)
     (fun n h => by cases h)
   -- every key has its value and its position
@@ -205,7 +201,7 @@ theorem encodeMessage_kitems (W : String → Option Int) (its : List KItem) (hne
 
 /-- `Request.decode` on a list of items = the pure decoder from cursor 0 -/
 theorem decodeMessage_kitems (its : List KItem) (hneed : Comps.need (KItems.comps its) + 2 ≤ modelFuel)
-    (hok : ∀ it ∈ its, it.ok) (msg : Bytes) (hfit : (Comps.pair (KItems.comps its)).fits { msg := msg })
+    (hok : ∀ it ∈ its, it.ok W) (msg : Bytes) (hfit : (Comps.pair (KItems.comps its)).fits { msg := msg })
     (hpre : Comps.decPre (KItems.comps its) { msg := msg }) :
     decodeMessage none (Comps.toParams (KItems.comps its)) msg true =
       .ok (.dict ((Comps.pair (KItems.comps its)).dec { msg := msg }).1,
@@ -225,14 +221,14 @@ theorem decodeMessage_kitems (its : List KItem) (hneed : Comps.need (KItems.comp
     each referring to a key of the same structure that is listed before it.  The dictionary handed to the encoder holds the
     users' values and, for the keys, the bit length or nothing; the decoded dictionary holds every key with the bit length. -/
 theorem kitems_roundtrip_msg (W : String → Option Int) (its : List KItem) (hneed : Comps.need (KItems.comps its) + 2 ≤ modelFuel)
-    (hok : ∀ it ∈ its, it.ok) (hlast : Comps.eopLast (KItems.comps its)) (hn : Comps.namesOk (KItems.comps its))
-    (hrefs : KItems.refsOk W [] [] its) (hcov : KItems.covered its) (trig : Option Bytes) (pdu : Bytes)
+    (hok : ∀ it ∈ its, it.ok W) (hlast : Comps.eopLast (KItems.comps its)) (hn : Comps.namesOk (KItems.comps its))
+    (hap : KItems.apart its) (hrefs : KItems.refsOk W [] [] its) (hcov : KItems.covered its) (trig : Option Bytes) (pdu : Bytes)
     (hend : Comps.anyEop (KItems.comps its) = true → ((Comps.pair (KItems.comps its)).enc {}).cursorByte = pdu.length)
     (henc : encodeMessage none (Comps.toParams (KItems.comps its)) (.dict (Comps.values (KItems.comps its))) trig true
       = .ok (pdu, 0)) :
     ∃ cursor, decodeMessage none (Comps.toParams (KItems.comps its)) pdu true =
       .ok (.dict (Comps.pair (KItems.comps its)).val, cursor) := by
-  obtain ⟨s0, hm, hu, hw0, hc, ho, hrun⟩ := encodeMessage_kitems W its hneed hok hlast hn hrefs hcov trig
+  obtain ⟨s0, hm, hu, hw0, hc, ho, hrun⟩ := encodeMessage_kitems W its hneed hok hlast hn hap hrefs hcov trig
   rw [hrun] at henc
   simp only [Except.ok.injEq, Prod.mk.injEq] at henc
   obtain ⟨hpdu, hwarn⟩ := henc
